@@ -32,7 +32,7 @@ def shards(tier, seed):
 
 def failing_action(rnd, kind, has_prefix):
     if kind == "raises":
-        return "boom"
+        return rnd.choice(["boom", "boom", "boom0"])
     if kind == "unknown":
         return rnd.choice(["nosuchcmd", "nosuchcmd-1-x", "only_alt"])
     if kind == "convert_int":
